@@ -28,7 +28,7 @@ FORMAT = "gromacs"
 FILENAME = "model.gro"
 LOAD_MANY = True
 
-F32_EPS = 2.0**-23  # one float32 ulp, relative to the magnitude
+F32_EPS = 2.0**-22  # two float32 ulps (parse + unit conversion are both rounded to float32)
 
 
 def st_model(big):
